@@ -29,7 +29,6 @@ NA = {
  "C32": "JSON round-trip and path laws: pure functions of documents",
  "C33": "REGEXP_* agreement: pure functions of (pattern, subject)",
  "C34": "scalar function identities: pure functions of arguments",
- "C42": "read-only modes block writes: enumeration of statement kinds under a static flag; no schedule or fault in it",
  "C46": "range algebra preserves key sets: pure function of range lists; exhaustive small-domain enumeration would be model checking, not this family",
  "C47": "indexed sets behave like sets: sequential container; an operation sequence with no schedule or fault is a pure function of its input",
  "C49": "closest-name suggestion: pure function of (name, candidates)",
